@@ -160,7 +160,7 @@ func runVerify(o *runOpts) int {
 		if !hasProp(c.Properties, o.property) {
 			continue
 		}
-		if c.opt("interface") || c.opt("trusted") && c.opt("external") {
+		if c.opt("interface") || c.Options["extern"] != "" {
 			continue
 		}
 		fn := P.findFunc(c)
